@@ -35,6 +35,19 @@ prop("C16", [
                  "deplete is evaluated at the same clock reading as the check that granted it (single task; read-then-write race not modelled)"])
 
 
+prop("C07", [
+    dict(engine="kani", sets=["net_addr", "net_udp_addr"]),
+], explanation="narrow clause of C07: source-address control message carries the receiving address (all 2^32/2^128 addresses)")
+
+prop("C08", [
+    dict(engine="kani", sets=["config_prefix"]),
+], explanation="prefix containment predicates against the written-prefix spec, all addresses and all prefix lengths")
+
+prop("C12", [
+    dict(engine="kani", sets=["dhcp_flag"]),
+], explanation="broadcast flag test over all 65536 flag values")
+
+
 # ---------------------------------------------------------------------------------------------
 def run_task(pid, task, tier, scratch, seed):
     eng = task["engine"]
